@@ -24,6 +24,10 @@ Definition chk2 (c : caseT) : bool :=
   let '(alg, n, Ap, Aj, zs, ls, expected) := c in
   list_eqb Z.eqb (run2 alg n Ap Aj zs ls) expected.
 
+(* two matchings of the Python driver: ids of the first (1-based), ids of the second, column indices of T = T1 @ T2 (0-based) *)
+Definition chkCompose (c : list Z * list Z * list Z) : bool :=
+  let '(x1, x2, expected) := c in list_eqb Z.eqb (map (fun v => v - 1) (compose x1 x2)) expected.
+
 (* CLJP with binary64 weights, as the kernel computes them *)
 Definition fz (v : Z) : float := PrimFloat.of_uint63 (Uint63.of_Z v).
 Definition caseTF := (Z * list Z * list Z * list Z * list Z * Z * list float * list Z)%type.
